@@ -18,6 +18,7 @@ empty — the GET call in EXECUTE must pass (or be guarded by) an in-flight witn
 and the Serial drain inside GET must be data- or control-dependent on that parameter; (R4) between the pushes of a
 batch and the next GET exactly one completion is awaited (so the completion awaited after a serial dispatch is the
 serial one).  Decides these structural necessary conditions; does not execute any schedule.
+Added after the second seeded round: (R4, extended) the loop's await can complete only through a completion: it is next() of the in-flight set or the crate's biased select of a never-completing future with exactly next() (read from the future's type); (R5) a retried scenario is re-enqueued under the type it was handed out with: GET's batch element -> RUN's parameter -> retry insertion -> ENQUEUE's key.
 """
 DECLINED = ["custom which_scenario classifiers supplied by the user (arbitrary closures)"]
 ASSUMPTIONS = ["FuturesUnordered::is_empty / len reflect the number of attempts in flight"]
